@@ -589,6 +589,12 @@ val resonance_bound :
   'a1 numops -> 'a1 -> 'a1 -> ('a1 * ('a1 * ('a1 * 'a1))) list -> 'a1 -> bool
   -> 'a1
 
+val tau_weight : 'a1 numops -> 'a1 -> 'a1 -> 'a1
+
+val tau_dropped_bound : 'a1 numops -> 'a1 -> 'a1 -> ('a1 * 'a1) list -> 'a1
+
+val tau_merge_bound : 'a1 numops -> 'a1 -> (('a1 * 'a1) * 'a1) list -> 'a1
+
 type status =
 | Constructed
 | Prepared
@@ -749,3 +755,9 @@ val c_susc_terms :
 val c_resonance_bound :
   (Float64.t -> Float64.t) -> fc -> fc -> (fc * (fc * (fc * fc))) list -> fc
   -> bool -> fc
+
+val c_tau_dropped_bound :
+  (Float64.t -> Float64.t) -> fc -> fc -> (fc * fc) list -> fc
+
+val c_tau_merge_bound :
+  (Float64.t -> Float64.t) -> fc -> ((fc * fc) * fc) list -> fc
